@@ -1,0 +1,7 @@
+//go:build !verif
+
+package eventloop
+
+// verifPoint marks a synchronisation point for the verification harness (build tag "verif").
+// Without the tag it is an empty, inlinable function.
+func verifPoint(loop *EventLoop, name string, objs ...interface{}) {}
